@@ -29,10 +29,18 @@ Line-protocol front end of the C01 model.
   descriptor of the requested grid (kind, Cartesian or not, number of axes, outcome of the numerical
   part of `get_fft_parameters`).  Answer `ok method params|grid kind cart ndim` (the descriptor of the
   object's `output_grid`, `ctorGrid`) or `err value`.
-* `impn lit|iter fwd|bwd std|emu [N…] [M…] [Mo…] [δ…] [z…] [dT…] [s…] [w…] [j…]` (lists in *shape*
+* `impn lit|iter|sum fwd|bwd std|emu [N…] [M…] [Mo…] [δ…] [z…] [dT…] [s…] [w…] [j…]` (lists in *shape*
   order `…,y,x`) — the **literal** 2-D / 3-D array programs `fastForward2/3`, `fastBackward2/3`
   (`lit`, 1–3 axes) or the iterated `fastForwardN`/`fastBackwardN` (`iter`, any number of axes) on the
-  unit impulse at the multi-index `j`; all output samples, row-major.
+  unit impulse at the multi-index `j`; all output samples, row-major.  `sum` = the n-D defining sums
+  `sumForwardN` / `sumBackwardN` (output weights `dT` per axis) on the same impulse.
+* `reproduce N δ Mo dT zeroT s z` — one axis of `get_fft_parameters` followed by the
+  FastFourierTransform built from the reconstructed parameters: `getFftParameters`, then
+  `plan (p.toAxisIn a z)`; answers `ok b Mo dT zeroT s` where `b` decides
+  `AxisReproduced a z o p ∧ FftValuePre (p.toAxisIn a z)` (the conclusion of `fft_grid_roundtrip'`,
+  the per-axis content of `AxesReproduced` in `selection_sound'`) and the rest is the output axis
+  that plan reports (`zeroT` = its zero in turns + the reconstructed shift in turns); `err value`
+  when the requested axis is not an FFT axis of the input axis.
 * `load shifts N M [buf…] [f…]` — `loadArray` (`Model/FftState.lean`): the persistent internal array
   after the first statements of `forward` from previous contents `buf` (then `ifftshift` when
   `shifts = 1`, as the code rebinds `internal_array`); exact rationals.
@@ -199,6 +207,12 @@ def literalN (fwd : Bool) (gs : List RCfg) (js : List Nat) : Option (List PSum) 
       | _ => 0)
   | _, _ => none
 
+instance (a : InAxis) (z : Rat) (o : OutAxis) (p : FftParams) : Decidable (AxisReproduced a z o p) := by
+  unfold AxisReproduced; infer_instance
+
+instance (a : AxisIn) : Decidable (FftValuePre a) := by
+  unfold FftValuePre; infer_instance
+
 def cztOp (sum : Bool) : List String → String
   | [n, m, nfft, om, al, j] =>
     match parseNat? n, parseNat? m, parseNat? nfft, parseRat? om, parseRat? al, parseNat? j with
@@ -244,7 +258,7 @@ def step (st : St) : List String → St × String
       parseRatList? dTs, parseRatList? ss, parseRatList? ws, parseNatList? js with
     | some Ns, some Ms, some Mos, some ds, some zs, some dTs, some ss, some ws, some js =>
       if (dir != "fwd" && dir != "bwd") || (cfg != "std" && cfg != "emu") ||
-          (mode != "lit" && mode != "iter") then (st, "bad-op") else
+          (mode != "lit" && mode != "iter" && mode != "sum") then (st, "bad-op") else
       match zipCfg (cfg == "emu") Ns Ms Mos ds zs dTs ss ws with
       | none => (st, "bad-op")
       | some gs =>
@@ -255,6 +269,14 @@ def step (st : St) : List String → St × String
           match literalN fwd gs js with
           | none => (st, "err value")
           | some outs => (st, "ok " ++ showPSums outs)
+        else if mode == "sum" then
+          -- the n-D defining sums the theorems `fast_*_nd_eq_sum` have on their right-hand side
+          let T := PSum.turns; let E := PSum.rad
+          let outs :=
+            if fwd then (allIdx (gs.map (·.Mo))).map fun ks => sumForwardN T E gs (impulseN js) ks
+            else (allIdx (gs.map (·.N))).map fun ks =>
+              sumBackwardN T E (fun g => PSum.ofRat g.dT) gs (impulseN js) ks
+          (st, "ok " ++ showPSums outs)
         else
           let T := PSum.turns; let E := PSum.rad
           let outs :=
@@ -407,6 +429,18 @@ def step (st : St) : List String → St × String
         | .ok c => (st, "ok " ++ showMethod c.method)
         | .error e => (st, "err " ++ e)
     | _, _, _, _ => (st, "bad-op")
+  | ["reproduce", N, d, Mo, dT, zT, s, z] =>
+    match parseNat? N, parseRat? d, parseNat? Mo, parseRat? dT, parseRat? zT, parseRat? s, parseRat? z with
+    | some N, some d, some Mo, some dT, some zT, some s, some z =>
+      let a : InAxis := ⟨N, d⟩
+      let o : OutAxis := ⟨Mo, dT, zT, s⟩
+      match getFftParameters a o with
+      | none => (st, "err value")
+      | some p =>
+        let pl := plan (p.toAxisIn a z)
+        let good := decide (AxisReproduced a z o p ∧ FftValuePre (p.toAxisIn a z))
+        (st, s!"ok {showBool good} {pl.Mo} {showRat pl.dT} {showRat (pl.zeroT + p.shiftT)} {showRat pl.shift}")
+    | _, _, _, _, _, _, _ => (st, "bad-op")
   | ["fftparams", N, d, Mo, dT, zT, s] =>
     match parseNat? N, parseRat? d, parseNat? Mo, parseRat? dT, parseRat? zT, parseRat? s with
     | some N, some d, some Mo, some dT, some zT, some s =>
